@@ -393,6 +393,13 @@ func r06_4(c *Ctx) {
 			}
 		}
 	}
+	// a plain receive after registration must be on the call's own done channel
+	eachInstr(fn, func(in ssa.Instruction) {
+		if u, ok := in.(*ssa.UnOp); ok && u.Op.String() == "<-" {
+			c.check(isDone(u.X), fnLabel(fn)+":plain-receive", P.ipos(in), "plain receive on its own done channel",
+				"Subscribe blocks in a plain receive that cannot observe its own done channel: the subscriber's own error (or shutdown) does not end Subscribe")
+		}
+	})
 	// every select after registration must be able to observe done (the error or the close)
 	for _, sel := range sels {
 		isReg := false
